@@ -437,4 +437,203 @@ theorem suppressKinds_dumpPItems (h : Str → Str) (hh : HashNoEq h) : ∀ (xs :
       simp only [dumpPItems, dropKindsItems, suppressKinds_append, h1, ih]
 end
 
+/-! ## `suppress_posonlyargs` -/
+
+abbrev posonlyMark : Str := cs!"/args/posonlyargs/_length="
+abbrev posonlyMarkKey : Str := cs!"/args/posonlyargs/_length"
+
+theorem posonlyFrom_iff : ∀ s : Str, posonlyFrom s = true ↔
+    ∃ a ds, s = a ++ posonlyMark ++ ds ∧ ds ≠ [] ∧ ds.all isDigitC = true
+  | [] => by
+    simp only [posonlyFrom, Bool.false_eq_true, false_iff]
+    rintro ⟨a, ds, h, _⟩
+    have := congrArg List.length h
+    simp at this
+  | c :: t => by
+    simp only [posonlyFrom, Bool.or_eq_true, posonlyFrom_iff t]
+    constructor
+    · rintro (h | ⟨a, ds, h1, h2, h3⟩)
+      · simp only [posonlyTail, Bool.and_eq_true, List.isPrefixOf_iff_prefix, Bool.not_eq_true',
+          List.isEmpty_eq_false_iff] at h
+        obtain ⟨⟨ds, hds⟩, h2, h3⟩ := h
+        have hd : (c :: t).drop posonlyMark.length = ds := by rw [← hds]; exact List.drop_left
+        refine ⟨[], ds, by simpa using hds.symm, ?_, ?_⟩
+        · rw [← hd]; exact h2
+        · rw [← hd]; exact h3
+      · exact ⟨c :: a, ds, by simp [h1], h2, h3⟩
+    · rintro ⟨a, ds, h1, h2, h3⟩
+      cases a with
+      | nil =>
+        left
+        have hp : posonlyMark <+: c :: t := ⟨ds, by simpa using h1.symm⟩
+        have hd : (c :: t).drop posonlyMark.length = ds := by rw [h1]; simp
+        simp only [posonlyTail, Bool.and_eq_true, List.isPrefixOf_iff_prefix, Bool.not_eq_true',
+          List.isEmpty_eq_false_iff]
+        exact ⟨hp, by rw [hd]; exact h2, by rw [hd]; exact h3⟩
+      | cons x a' =>
+        simp only [List.cons_append, List.cons.injEq] at h1
+        right; exact ⟨a', ds, h1.2, h2, h3⟩
+
+theorem isPosonlyLine_iff (l : Str) : isPosonlyLine l = true ↔
+    ∃ a ds, a ≠ [] ∧ l = a ++ posonlyMark ++ ds ∧ ds ≠ [] ∧ ds.all isDigitC = true := by
+  cases l with
+  | nil =>
+    simp only [isPosonlyLine, Bool.false_eq_true, false_iff]
+    rintro ⟨a, ds, ha, h, _⟩
+    cases a with
+    | nil => exact ha rfl
+    | cons x a => simp at h
+  | cons c t =>
+    simp only [isPosonlyLine, posonlyFrom_iff]
+    constructor
+    · rintro ⟨a, ds, h1, h2, h3⟩; exact ⟨c :: a, ds, by simp, by simp [h1], h2, h3⟩
+    · rintro ⟨a, ds, ha, h1, h2, h3⟩
+      cases a with
+      | nil => exact absurd rfl ha
+      | cons x a' =>
+        simp only [List.cons_append, List.cons.injEq] at h1
+        exact ⟨a', ds, h1.2, h2, h3⟩
+
+/-- On a `key=value` line without `=` in key and value, the pass looks at the key and at the digits. -/
+theorem isPosonlyLine_keyval {K V : Str} (hK : '=' ∉ K) (hV : '=' ∉ V) :
+    isPosonlyLine (K ++ '=' :: V) = true ↔
+      (∃ a, a ≠ [] ∧ K = a ++ posonlyMarkKey) ∧ V ≠ [] ∧ V.all isDigitC = true := by
+  rw [isPosonlyLine_iff]
+  constructor
+  · rintro ⟨a, ds, ha, h, h2, h3⟩
+    have h' : (a ++ posonlyMarkKey) ++ '=' :: ds = K ++ '=' :: V := by rw [h]; simp
+    rcases split_first hK h' with ⟨h1, h4⟩ | ⟨E, _, h4⟩
+    · exact ⟨⟨a, ha, h1.symm⟩, h4 ▸ h2, h4 ▸ h3⟩
+    · exact absurd (by rw [h4]; simp) hV
+  · rintro ⟨⟨a, ha, rfl⟩, h2, h3⟩
+    exact ⟨a, V, ha, by simp, h2, h3⟩
+
+theorem isPosonlyLine_marker {pre lit V : Str} (head tail : Str) (hl : lit = head ++ tail)
+    (h5 : tail.length = 5) (hne : tail ≠ cs!"ength") (hlit : '=' ∉ lit)
+    (hpre : '=' ∉ pre) (hV : '=' ∉ V) : isPosonlyLine ((pre ++ lit) ++ '=' :: V) = false := by
+  cases hb : isPosonlyLine ((pre ++ lit) ++ '=' :: V) with
+  | false => rfl
+  | true =>
+    obtain ⟨⟨a, _, h⟩, _⟩ := (isPosonlyLine_keyval (not_mem_append_lit hpre hlit) hV).mp hb
+    have hs : (cs!"ength") <:+ (pre ++ head) ++ tail :=
+      ⟨a ++ cs!"/args/posonlyargs/_l", by
+        have e : pre ++ head ++ tail = pre ++ lit := by rw [hl]; simp
+        rw [e, h]; simp⟩
+    exact absurd (suffix_same_length (by rw [h5]; rfl) hs).symm hne
+
+theorem posonlyPre_iff (pre : Str) : posonlyPre pre = true ↔ ∃ a, a ≠ [] ∧ pre = a ++ posonlyKey := by
+  simp only [posonlyPre, Bool.and_eq_true, List.isSuffixOf_iff_suffix, decide_eq_true_eq]
+  constructor
+  · rintro ⟨⟨a, ha⟩, hlen⟩
+    refine ⟨a, ?_, ha.symm⟩
+    rintro rfl
+    rw [← ha] at hlen; simp at hlen
+  · rintro ⟨a, ha, rfl⟩
+    refine ⟨⟨a, rfl⟩, ?_⟩
+    have : 0 < a.length := List.length_pos_iff.mpr ha
+    simp only [List.length_append]; omega
+
+theorem all_isDigitC_dec (n : Nat) : (dec n).all isDigitC = true := by
+  rw [List.all_eq_true]; intro c hc; exact isDigitC_of_isDigit (isDigit_of_mem_dec hc)
+
+/-- The `_length` line of a list is deleted iff the list's prefix ends with `/args/posonlyargs`
+(and has something before). -/
+theorem isPosonlyLine_lengthLine {pre : Str} (n : Nat) (hpre : '=' ∉ pre) :
+    isPosonlyLine (lengthLine pre n) = posonlyPre pre := by
+  have hl : lengthLine pre n = (pre ++ cs!"/_length") ++ '=' :: dec n := by simp [lengthLine]
+  have hK : '=' ∉ pre ++ cs!"/_length" := not_mem_append_lit hpre (by decide)
+  have key : isPosonlyLine (lengthLine pre n) = true ↔ posonlyPre pre = true := by
+    rw [hl, isPosonlyLine_keyval hK (eq_not_mem_dec n), posonlyPre_iff]
+    constructor
+    · rintro ⟨⟨a, ha, h⟩, _⟩
+      refine ⟨a, ha, ?_⟩
+      have h' : pre ++ cs!"/_length" = (a ++ posonlyKey) ++ cs!"/_length" := by
+        rw [h]; simp [posonlyKey]
+      exact List.append_cancel_right h'
+    · rintro ⟨a, ha, rfl⟩
+      exact ⟨⟨a, ha, by simp [posonlyKey]⟩, dec_ne_nil n, all_isDigitC_dec n⟩
+  cases hb : isPosonlyLine (lengthLine pre n) <;> cases hc : posonlyPre pre <;> simp_all
+
+theorem suppressPosonlyargs_append (a b : List Str) :
+    suppressPosonlyargs (a ++ b) = suppressPosonlyargs a ++ suppressPosonlyargs b := by
+  simp [suppressPosonlyargs]
+
+theorem suppressPosonlyargs_cons_keep {l : Str} (rest : List Str) (h : isPosonlyLine l = false) :
+    suppressPosonlyargs (l :: rest) = l :: suppressPosonlyargs rest := by
+  simp [suppressPosonlyargs, h]
+
+theorem suppressPosonlyargs_cons_drop {l : Str} (rest : List Str) (h : isPosonlyLine l = true) :
+    suppressPosonlyargs (l :: rest) = suppressPosonlyargs rest := by
+  simp [suppressPosonlyargs, h]
+
+theorem length_quietPosonlyItems (pre : Str) : ∀ (xs : List Val) (i : Nat),
+    (quietPosonlyItems pre i xs).length = xs.length
+  | [], _ => rfl
+  | x :: xs, i => by simp [quietPosonlyItems, length_quietPosonlyItems pre xs (i + 1)]
+
+mutual
+theorem suppressPosonlyargs_dumpP (h : Str → Str) (hh : HashNoEq h) : ∀ (v : Val) (pre path : Str),
+    '=' ∉ pre → '=' ∉ path → wfPosonly pre v = true →
+    suppressPosonlyargs (dumpP h pre path v) = dumpP h pre path (quietPosonly pre v)
+  | .node ty e r ln fs, pre, path, hpre, hpath, hwf => by
+    simp only [wfPosonly, Bool.and_eq_true] at hwf
+    have hty : '=' ∉ ty := by simpa using hwf.1
+    have ih := suppressPosonlyargs_dumpPFields h hh fs pre path 0 hpre hpath hwf.2
+    have h1 : isPosonlyLine (typeLine pre ty) = false := by
+      have : typeLine pre ty = (pre ++ cs!"/_type") ++ '=' :: ty := by simp [typeLine]
+      rw [this]; exact isPosonlyLine_marker (cs!"/") (cs!"_type") rfl rfl (by decide) (by decide) hpre hty
+    have h2 : isPosonlyLine (hashLine pre (h r)) = false := by
+      have : hashLine pre (h r) = (pre ++ cs!"/_hash") ++ '=' :: h r := by simp [hashLine]
+      rw [this]; exact isPosonlyLine_marker (cs!"/") (cs!"_hash") rfl rfl (by decide) (by decide) hpre (hh r)
+    have h3 : ∀ n, isPosonlyLine (posLine pre n path) = false := by
+      intro n
+      have : posLine pre n path = (pre ++ cs!"/_pos") ++ '=' :: (dec n ++ ':' :: path.drop 2) := by simp [posLine]
+      rw [this]
+      refine isPosonlyLine_marker [] (cs!"/_pos") rfl rfl (by decide) (by decide) hpre ?_
+      simp only [List.mem_append, List.mem_cons, not_or]
+      exact ⟨eq_not_mem_dec n, by decide, fun hm => hpath (List.mem_of_mem_drop hm)⟩
+    cases e <;> cases ln <;>
+      simp [dumpP, quietPosonly, suppressPosonlyargs_cons_keep, h1, h2, h3, ih]
+  | .list q xs, pre, path, hpre, hpath, hwf => by
+    simp only [wfPosonly] at hwf
+    have ih := suppressPosonlyargs_dumpPItems h hh xs pre path 1 hpre hpath hwf
+    have h1 := isPosonlyLine_lengthLine xs.length hpre
+    cases q with
+    | true => simp [dumpP, quietPosonly, ih]
+    | false =>
+      cases hp : posonlyPre pre with
+      | true =>
+        rw [hp] at h1
+        simp [dumpP, quietPosonly, hp, suppressPosonlyargs_cons_drop _ h1, ih]
+      | false =>
+        rw [hp] at h1
+        simp [dumpP, quietPosonly, hp, suppressPosonlyargs_cons_keep _ h1, ih, length_quietPosonlyItems]
+  | .scalar r k, pre, path, _, _, hwf => by
+    simp only [wfPosonly, Bool.not_eq_true'] at hwf
+    simp [dumpP, quietPosonly, suppressPosonlyargs, hwf]
+theorem suppressPosonlyargs_dumpPFields (h : Str → Str) (hh : HashNoEq h) :
+    ∀ (fs : List (Str × Val)) (pre path : Str) (i : Nat),
+    '=' ∉ pre → '=' ∉ path → wfPosonlyFields pre fs = true →
+    suppressPosonlyargs (dumpPFields h pre path i fs) = dumpPFields h pre path i (quietPosonlyFields pre fs)
+  | [], _, _, _, _, _, _ => rfl
+  | (n, v) :: rest, pre, path, i, hpre, hpath, hwf => by
+    simp only [wfPosonlyFields, Bool.and_eq_true] at hwf
+    have hn : '=' ∉ n := by simpa using hwf.1.1
+    have h1 := suppressPosonlyargs_dumpP h hh v (subPre pre n) (subPath path i)
+      (eq_not_mem_subPre hpre hn) (eq_not_mem_subPath i hpath) hwf.1.2
+    have h2 := suppressPosonlyargs_dumpPFields h hh rest pre path (i + 1) hpre hpath hwf.2
+    simp only [dumpPFields, quietPosonlyFields, suppressPosonlyargs_append, h1, h2]
+theorem suppressPosonlyargs_dumpPItems (h : Str → Str) (hh : HashNoEq h) :
+    ∀ (xs : List Val) (pre path : Str) (i : Nat),
+    '=' ∉ pre → '=' ∉ path → wfPosonlyItems pre i xs = true →
+    suppressPosonlyargs (dumpPItems h pre path i xs) = dumpPItems h pre path i (quietPosonlyItems pre i xs)
+  | [], _, _, _, _, _, _ => rfl
+  | v :: rest, pre, path, i, hpre, hpath, hwf => by
+    simp only [wfPosonlyItems, Bool.and_eq_true] at hwf
+    have h1 := suppressPosonlyargs_dumpP h hh v (subPre pre (dec i)) (subPath path i)
+      (eq_not_mem_subPre hpre (eq_not_mem_dec i)) (eq_not_mem_subPath i hpath) hwf.1
+    have h2 := suppressPosonlyargs_dumpPItems h hh rest pre path (i + 1) hpre hpath hwf.2
+    simp only [dumpPItems, quietPosonlyItems, suppressPosonlyargs_append, h1, h2]
+end
+
 end Paroxy.Flat
